@@ -81,6 +81,7 @@ void drv_linux_deliver(int iface, const uint8_t *frame, size_t len) {
     memcpy(f->recv, frame, len);
     f->recv_prev_len = len;
     W.cur_request++;
+    vf_cur_iface = iface;
     parseFrame(f->recv, vf_ctx(iface));
 }
 
